@@ -11,7 +11,7 @@ UNIT = {
     "prelude": ["../common/number.rs", gen_ops.gen, "../common/floatk.rs", "../common/stdspecs.rs", "prelude.rs"],
     "specs": ["numcmp.spec"],
     "explicit_use": ["Integer"],
-    "broadcast_use": ["ax_number::axiom_fixnum_range", "ax_cmp::axiom_q_cmp_int", "ax_cmp::axiom_q_cmp_antisym", "ax_cmp::axiom_f_cmp_antisym", "ax_cmp::axiom_q_cmp_refl", "ax_cmp::axiom_f_cmp_refl"],
+    "broadcast_use": ["ax_number::axiom_fixnum_range", "ax_cmp::axiom_q_cmp_int", "ax_cmp::axiom_q_cmp_antisym", "ax_cmp::axiom_f_cmp_antisym", "ax_cmp::axiom_q_cmp_refl", "ax_cmp::axiom_f_cmp_refl", "ax_cmp::axiom_q_floor_cmp"],
     "items": [
         {"block": "enum", "header": r"enum Number", "file": F_FORMS, "rewrites": ["strip_type_head"]},
         {"block": "enum", "header": r"enum EvalError", "file": F_ERR, "rewrites": ["strip_type_head"]},
